@@ -79,9 +79,35 @@ func (s *Store) Apply(m Mutation) {
 	}
 }
 
+// FailAt makes the n-th (1-based) mutating call from now on fail once, without effect; 0 clears.
+func (s *Store) FailAt(n int) {
+	s.mu.Lock()
+	s.failAt, s.count = n, 0
+	s.mu.Unlock()
+}
+
+// ErrInjected is returned by the call selected with FailAt.
+var ErrInjected = fmt.Errorf("injected storage fault")
+
+// fails reports (with the lock held) whether this mutating call is the one selected by FailAt.
+func (s *Store) fails() bool {
+	if s.failAt <= 0 {
+		return false
+	}
+	s.count++
+	if s.count == s.failAt {
+		s.failAt = 0
+		return true
+	}
+	return false
+}
+
 func (s *Store) Write(ctx context.Context, key string, body []byte, o *storage.Options) error {
 	s.mu.Lock()
 	defer s.mu.Unlock()
+	if s.fails() {
+		return ErrInjected
+	}
 	c := make([]byte, len(body))
 	copy(c, body)
 	if s.logging {
@@ -106,6 +132,9 @@ func (s *Store) Read(ctx context.Context, key string) ([]byte, error) {
 func (s *Store) Remove(ctx context.Context, key string) error {
 	s.mu.Lock()
 	defer s.mu.Unlock()
+	if s.fails() {
+		return ErrInjected
+	}
 	if s.logging {
 		s.log = append(s.log, Mutation{Remove: true, Key: key})
 	}
